@@ -467,24 +467,59 @@ def rule_flags(ctx) -> None:
     """C15.flags: RotMetaFlags export and parse agree on bit positions; validate bounds fit the fields."""
     chk = ctx.chk
     ex, pa, va = ctx.own(DC, "RotMetaFlags", "export"), ctx.own(DC, "RotMetaFlags", "parse"), ctx.own(DC, "RotMetaFlags", "validate")
-    w: Dict[str, int] = {}
-    for s in A.body_of(ex.node):
-        if isinstance(s, ast.AugAssign) and isinstance(s.op, ast.BitOr) and isinstance(s.value, ast.BinOp) and isinstance(s.value.op, ast.LShift):
-            w[norm(s.value.left)] = ctx.prog.fold(s.value.right, ex.module)
-    r: Dict[str, Tuple[int, int]] = {}
-    for s in A.body_of(pa.node):
-        if isinstance(s, ast.Assign) and isinstance(s.value, ast.BinOp) and isinstance(s.value.op, ast.BitAnd):
-            l = s.value.left
-            if isinstance(l, ast.BinOp) and isinstance(l.op, ast.RShift) and norm(l.left) == "flags":
-                r["self." + norm(s.targets[0])] = (ctx.prog.fold(l.right, pa.module), ctx.prog.fold(s.value.right, pa.module))
-    guard = "if not flags & 1 << 31:" in norm(pa.node)
-    ret = norm(A.returns_in(pa.node)[-1].value)
-    ok = w == {"1": 31, "self.used_root_cert": 8, "self.cnt_root_cert": 4} and r == {"self.used_root_cert": (8, 15), "self.cnt_root_cert": (4, 15)} and guard and ret == "cls(used_root_cert, cnt_root_cert)" \
-        and norm(A.returns_in(ex.node)[-1].value) == "pack('<L', flags)" and "int.from_bytes(data, 'little')" in norm(pa.node)
-    chk.decide(ok, "C15.flags", f"{DC}::RotMetaFlags export<->parse", "bit 31 marker, used index at bits 8-11, key count at bits 4-7, little-endian 32-bit word on both sides", f"export shifts {w}; parse (shift, mask) {r}; marker checked {guard}; returns {ret}", "", A.loc(DC, ex.node))
-    t = norm(va.node)
-    chk.decide("if self.cnt_root_cert > 4:" in t and "if self.used_root_cert + 1 > self.cnt_root_cert:" in t and "self.validate()" in norm(ctx.own(DC, "RotMetaFlags", "__init__").node), "C15.flags", va.qual,
-               "count <= 4 and used index < count are enforced on construction (both fit their 4-bit fields)", t[:200], "", A.loc(DC, va.node))
+    # The class evaluated on models: export(u, c) is the little-endian word  1<<31 | u<<8 | c<<4 ;  parse of that word gives (u, c)
+    # back, rejects a word without the marker and any other length; validate rejects exactly count > 4 or used index >= count.
+    import struct as _struct
+    from ..engines import ordereval as _oe
+    Obj = _oe.Obj
+    kcls = ctx.cls(DC, "RotMetaFlags")
+
+    def cv(c: ast.Call, ev):
+        f = norm(c.func)
+        if f in ("pack", "struct.pack") and c.args:
+            try:
+                return _struct.pack(ev.ev(c.args[0]), *[ev.ev(a) for a in c.args[1:]])
+            except _struct.error:
+                raise _oe.ModelRaise(_oe.Outcome("raise", "struct.error", c))
+        if f in ("unpack", "struct.unpack") and len(c.args) == 2:
+            return tuple(_struct.unpack(ev.ev(c.args[0]), bytes(ev.ev(c.args[1]))))
+        if f in ("cls", "RotMetaFlags"):
+            kw = {k.arg: ev.ev(k.value) for k in c.keywords}
+            pos = [ev.ev(a) for a in c.args]
+            return ("FLAGS", pos[0] if pos else kw.get("used_root_cert"), pos[1] if len(pos) > 1 else kw.get("cnt_root_cert"))
+        return _oe.NOT_MODELLED
+    calls = ctx.model_calls(cv)
+
+    def run_m(fn, env):
+        try:
+            return _oe.Evaluator(env, ctx.fold_sym(fn), opaque_return=False, call_value=calls).run(A.body_of(fn.node))
+        except _oe.Unsupported as e:
+            raise AnalysisError(f"C15.flags: {fn.qual} left the fragment: {e}")
+    probs = []
+    for u in range(0, 4):
+        for c in range(1, 5):
+            out = run_m(ex, {"self": Obj(_cls=kcls, used_root_cert=u, cnt_root_cert=c)})
+            want_b = _struct.pack("<L", (1 << 31) | (u << 8) | (c << 4))
+            if not (out.kind == "return" and bytes(out.value) == want_b):
+                probs.append(f"export(used {u}, count {c}) = {bytes(out.value).hex() if isinstance(out.value, (bytes, bytearray)) else out.kind}, expected {want_b.hex()}")
+                continue
+            back = run_m(pa, {"cls": Obj(_cls=kcls), "data": want_b})
+            if not (back.kind == "return" and back.value == ("FLAGS", u, c)):
+                probs.append(f"parse(export(used {u}, count {c})) = {back.value!r} ({back.kind})")
+    for bad_w, why in ((_struct.pack("<L", (2 << 8) | (3 << 4)), "a word without the bit-31 marker"), (bytes(3), "3 bytes"), (bytes(5), "5 bytes"), (b"", "no data")):
+        out = run_m(pa, {"cls": Obj(_cls=kcls), "data": bad_w})
+        if out.kind != "raise":
+            probs.append(f"parse accepts {why}")
+    chk.decide(not probs, "C15.flags", f"{DC}::RotMetaFlags export<->parse", "bit 31 marker, used index at bits 8-11, key count at bits 4-7, little-endian 32-bit word on both sides (16 field combinations + 4 malformed words)", "; ".join(probs[:2]), "", A.loc(DC, ex.node))
+    probs = []
+    for u in range(0, 6):
+        for c in range(0, 7):
+            out = run_m(va, {"self": Obj(_cls=kcls, used_root_cert=u, cnt_root_cert=c)})
+            want_k = "raise" if (c > 4 or u + 1 > c) else "fall"
+            if out.kind != want_k:
+                probs.append(f"validate(used {u}, count {c}): {out.kind}, expected {want_k}")
+    init_validates = "self.validate()" in norm(ctx.own(DC, "RotMetaFlags", "__init__").node)
+    chk.decide(not probs and init_validates, "C15.flags", va.qual, "count <= 4 and used index < count are enforced on construction (both fit their 4-bit fields)", "; ".join(probs[:2]) or "constructor does not validate", "", A.loc(DC, va.node))
 
 
 def rule_rot_hash(ctx) -> None:
